@@ -65,24 +65,8 @@ def run(ctx):
     sym_pool = [molgen.synthetic_symmetric(ctx.rng) for _ in range(ctx.n(30, 400))]
     cases += m1lib.gen_cases(ctx, ctx.n(20, 300), pool=sym_pool,
                              opt_filter=lambda o: dict(o, stereo=True, level=max(1, o['level'] or 2), mult=max(o['mult'], 1.5), incl=True))
-    # one Fingerprinter object reused over the conformers of a molecule (what fprints_dict_from_mol does)
-    from e3fp.fingerprint.fprinter import Fingerprinter
-    reused = 0
-    for name, m0 in molgen.shipped()[:ctx.n(7, 7)]:
-        o = dict(molgen.DEFAULT_OPTS, level=ctx.rng.choice([4, 5]), mult=ctx.rng.choice([1.5, 1.718]))
-        f = Fingerprinter(level=o['level'], radius_multiplier=o['mult'])
-        ids = [conf.GetId() for conf in list(m0.GetConformers())[:ctx.n(4, 12)]]
-        m = molfacts.gridded(m0, conf_ids=set(ids))      # ONE molecule object for all runs: only conformer-level state is reset
-        for cid in ids:
-            c = m1lib.Case(name + ' (reused fingerprinter)', m, cid, o, reuse=f)
-            if c.unstable:
-                continue
-            if c.err is None:
-                for lv in range(0, o['level'] + 2):      # every explicit level, reached by this conformer or not
-                    c.add_query(lv, 2 ** 32 if lv % 2 else 1024, [])
-            cases.append(c)
-            reused += 1
-    ctx.coverage['input_distribution']['reused_fingerprinter_cases'] = reused
+    # one Fingerprinter object reused over the conformers of one molecule object (what fprints_dict_from_mol does)
+    cases += m1lib.reused_cases(ctx, 7, ctx.n(4, 12))
     dc = dative_case(ctx)
     if dc is not None:
         cases.append(dc)
@@ -103,7 +87,4 @@ def run(ctx):
 
 
 def replay(ctx, path):
-    import json
-    d = json.load(open(path))
-    print(json.dumps({k: v for k, v in d['case'].items() if k not in ('molblock',)}, indent=1)[:6000])
-    return 0
+    return m1lib.replay_case(ctx, path)
